@@ -2069,6 +2069,16 @@ func (c *Cache) additionalAnswer(ctx context.Context, msg *dns.Msg) *dns.Msg {
 			middleware.PropagateValidatedDenialResponse(ctx, respCname, msg)
 			// The outer response is now this denial, proof and all.
 			lineage.inherit()
+			if len(respCname.Answer) == 0 && len(respCname.Ns) == 0 {
+				// A denial without a single record has no TTL of its own to
+				// bring into the outer answer: the alias records would be the
+				// only ones left to bound the re-cached "alias + NXDOMAIN", for
+				// up to a day, while the denial itself is kept for the minimum
+				// only. The composite lives as long as the cache grants the
+				// denial it was composed from.
+				mt, _ := dnsutil.ClassifyResponse(respCname, time.Now().UTC())
+				boundRequestTo(ctx, time.Now().Add(dnsutil.CalculateCacheTTL(respCname, mt)))
+			}
 			return msg
 		}
 		if respCname != nil {
